@@ -203,7 +203,7 @@ class Body:
         return s
 
     # ---- provenance ----------------------------------------------------------------------
-    def provenance(self, op_or_local, through_calls=True, max_nodes=4000):
+    def provenance(self, op_or_local, through_calls=True, max_nodes=4000, skip_arg_ty=None, follow=()):
         """Backward, flow-insensitive slice. Returns a Prov with: params (set of (idx, projection
         string)), consts (set of (ty, value/def)), calls (set of (callee, block)), locals visited."""
         pv = Prov()
@@ -227,8 +227,10 @@ class Body:
                     pv.calls.add((callee, bi))
                     if rec.get("fn"):
                         pv.decls.add((rec["fn"], bi))
-                    if through_calls:
-                        for a in rec["args"]:
+                    if through_calls or (rec.get("fn") in follow):
+                        for a, aty in zip(rec["args"], rec.get("argtys", [""] * len(rec["args"]))):
+                            if skip_arg_ty is not None and skip_arg_ty(aty):
+                                continue
                             self._push_op(a, work, pv)
                     continue
                 rv = rec["rv"]
@@ -317,6 +319,15 @@ def _join(b, pp, proj):
         pp.pop()
         proj.pop(0)
     return (b, tuple(pp) + tuple(proj))
+
+
+# calls that merely unwrap / convert their argument; `follow=TRANSPARENT` lets a shallow slice see through them
+TRANSPARENT = frozenset({
+    "core::ops::try_trait::Try::branch", "core::result::Result::<T, E>::map_err", "core::result::Result::<T, E>::unwrap",
+    "core::result::Result::<T, E>::expect", "core::option::Option::<T>::unwrap", "core::option::Option::<T>::expect",
+    "core::convert::Into::into", "core::convert::From::from", "core::clone::Clone::clone", "core::ops::deref::Deref::deref",
+    "core::option::Option::<T>::ok_or", "core::option::Option::<T>::ok_or_else", "core::result::Result::<T, E>::ok",
+})
 
 
 class Prov:
